@@ -12,3 +12,4 @@ def run(prog, rep):
     r_dim.run_sink(prog, rep)
     r_dim.run_faith(prog, rep)
     r_dim.run_alias(prog, rep)
+    r_dim.run_ticks_write(prog, rep)
